@@ -176,6 +176,13 @@ def unreadable_candidates(rnd, per_fixture=4, fixtures=12):
                 out.append(json.dumps(w))
         except Exception:
             pass
+    # sources in other formats that CONTAIN complete JSON values: an API description with a JSON example, tool output
+    # in front of a document, a YAML flow collection on a line of its own
+    out.append("#%RAML 1.0\ntitle: api\ntypes:\n  T:\n    example: |\n{\n  \"a\": 1\n}\n")
+    out.append("openapi: 3.0.0\ninfo:\n  title: x\nx-example:\n[]\n")
+    out.append("WARNING: an illegal reflective access operation has occurred\n" + '[{"@id": "http://example.org/n1"}]' + "\ntrailing words\n")
+    out.append("title: x\n{}\nmore: yaml\n")
+    out.append("Picked up JAVA_TOOL_OPTIONS\n{\"@graph\": []}\n")
     for _ in range(per_fixture * 3):
         out.append(raw_bytes(rnd))
     return out
